@@ -19,7 +19,7 @@ PROPS['C20'] = dict(
         dict(name='matrix', variant='plain', harness='c20_cores.cpp', quick=4320, thorough=43200, budget=120, cxxflags=['-O2']),
         dict(name='voices', variant='plain', harness='c20_cores.cpp', quick=960, thorough=9600, budget=120, cxxflags=['-O2']),
         dict(name='asan', variant='asan', harness='c20_cores.cpp', quick=432, thorough=2160, budget=300),
-        dict(name='memcheck', variant='plain-d', harness='c20_cores.cpp', quick=48, thorough=720, budget=300, wall=3000,
+        dict(name='memcheck', variant='plain-d', harness='c20_cores.cpp', quick=48, thorough=240, budget=300, wall=3000,
              wrapper=['valgrind', '-q', '--error-exitcode=79', '--exit-on-first-error=yes', '--track-origins=no', '--leak-check=no']),
     ],
 )
